@@ -5,6 +5,7 @@ import (
 	"go/ast"
 	"go/token"
 	"go/types"
+	"math/big"
 	"strings"
 
 	"golang.org/x/tools/go/ssa"
@@ -341,6 +342,11 @@ func (e *Engine) verifyFunction(key string) (u *Unit, err error) {
 			u.assumed["lemma instance used: "+us.Text] = true
 		}
 	}
+	if ct != nil && ct.FnSplit != nil {
+		v := env.eval(ct.FnSplit.Expr)
+		t := u.define("split", v.S, v.T)
+		u.splits = append(u.splits, splitInfo{term: t, sort: v.S, lo: ct.FnSplitLo, hi: ct.FnSplitHi, from: len(u.obls), reach: "true", text: ct.FnSplit.Text})
+	}
 	// vacuity: the assumptions are satisfiable
 	o := u.oblig("pre-sat", "preconditions and input type invariants are satisfiable", "true", nil)
 	o.ExpectSat = true
@@ -376,6 +382,7 @@ func (e *Engine) verifyFunction(key string) (u *Unit, err error) {
 	if ct == nil {
 		return u, nil
 	}
+	defer u.applySplits()
 	// postconditions
 	penv := fr.baseEnv(res.heap)
 	penv.bindResults(res.vals, fn.Signature)
@@ -458,6 +465,50 @@ func (e *Engine) verifyFunction(key string) (u *Unit, err error) {
 		}
 	}
 	return u, nil
+}
+
+// applySplits replaces every obligation generated after a split point by one
+// variant per case, and adds the obligation that the cases are exhaustive.
+func (u *Unit) applySplits() {
+	for si := len(u.splits) - 1; si >= 0; si-- {
+		sp := u.splits[si]
+		lit := func(j int) string {
+			if isBVSort(sp.sort) {
+				return bvLit(big.NewInt(int64(j)), bvWidth(sp.sort))
+			}
+			return ilit(int64(j))
+		}
+		var out []*Oblig
+		out = append(out, u.obls[:sp.from]...)
+		for _, o := range u.obls[sp.from:] {
+			if o.ExpectSat {
+				out = append(out, o)
+				continue
+			}
+			for j := sp.lo; j <= sp.hi; j++ {
+				v := *o
+				v.Name = fmt.Sprintf("%s[%s=%d]", o.Name, "case", j)
+				v.Extra = append(append([]string(nil), o.Extra...), "(assert "+eq(sp.term, lit(j))+")")
+				out = append(out, &v)
+			}
+		}
+		var cover string
+		if isBVSort(sp.sort) {
+			cover = and(app("bvule", lit(sp.lo), sp.term), app("bvule", sp.term, lit(sp.hi)))
+		} else {
+			cover = and(app("<=", lit(sp.lo), sp.term), app("<=", sp.term, lit(sp.hi)))
+		}
+		// the cover obligation sees the loop-head assumptions: it is placed right after them
+		c := &Oblig{Name: fmt.Sprintf("%s/split-cover#%d", u.name, si+1), Kind: "split-cover", Fn: u.name,
+			Clause: fmt.Sprintf("case split on %s covers %d..%d", sp.text, sp.lo, sp.hi), Goal: implies(sp.reach, cover), Unit: u}
+		if sp.from < len(u.obls) {
+			c.Prefix = u.obls[sp.from].Prefix
+		} else {
+			c.Prefix = len(u.lines)
+		}
+		out = append(out, c)
+		u.obls = out
+	}
 }
 
 func sortedCompKeys(m map[string]string) []string {
